@@ -92,6 +92,36 @@ Example C05_te_chunked_nonvacuous :
   /\ te_chunked [] = false.
 Proof. vm_compute. repeat split. Qed.
 
+(* ... also from the RAW header: whatever integer int(CONTENT_LENGTH) yields
+   (content_length_raw: absent / empty = -1, any spelling int() accepts), a
+   chunked transfer coding is read by the chunked decoder. *)
+Theorem C05_chunked_overrides_raw_content_length :
+  forall (s : stream) (buf : nat) (maxb : option nat) (raw : option (list N)) (te : list N) (cl : Z),
+    te_chunked te = true -> content_length_raw raw = Some cl ->
+    body_read_raw s buf maxb raw te = Some (body_read_chunked s buf maxb).
+Proof. exact C05_chunked_overrides_raw_cl_lemma. Qed.
+Print Assumptions C05_chunked_overrides_raw_content_length.
+
+(* FINDING (not repaired; the same defect as C12-content-length-not-int): the
+   hypothesis above is needed — a Content-Length that int() rejects makes
+   BodyMixin.content_length raise ValueError before the chunked decoder is even
+   chosen, so a chunked request carrying "Content-Length: abc" is a 500. *)
+Theorem C05_content_length_not_int_refuted :
+  exists (raw te : list N),
+    te_chunked te = true /\
+    forall s buf maxb, body_read_raw s buf maxb (Some raw) te = None.
+Proof. exact C05_cl_not_int_lemma. Qed.
+Print Assumptions C05_content_length_not_int_refuted.
+
+(* Object reuse: in a sequence of requests served by one application (one
+   Request object, shared HTTPError instances in errors_map) every response is
+   the function corr_C05_one of its own request, whatever came before or after. *)
+Theorem C05_response_function_of_request :
+  forall (pre post : list (list Z)) (x : list Z),
+    nth (length pre) (run_seq (pre ++ x :: post)) [] = corr_C05_one x.
+Proof. exact C05_seq_lemma. Qed.
+Print Assumptions C05_response_function_of_request.
+
 (* Hex round trip: int(b.strip(), 16) reads every spelling of n (k leading
    zeros, any per-digit case choice) back as n; and every plain hexadecimal
    numeral is read with its value. *)
